@@ -108,6 +108,8 @@ func (w *verifWorld) expand(tok string) []byte {
 		return []byte{127}
 	case "x":
 		return []byte{'z'}
+	case "hi":
+		return []byte{0xe9}
 	case "open_alice":
 		return []byte("open " + u("/users/alice"))
 	case "open_n2":
@@ -167,6 +169,9 @@ type verifSession struct {
 	inCb    int32
 	unheld  int64
 	dump    string
+	termW   int32 // the terminal size as the driver last set it (after the call returned)
+	termH   int32
+	prevH   int32
 	mu      sync.Mutex
 	pending []verifkit.M
 	emitFrames bool
@@ -210,8 +215,25 @@ func (v *verifSession) callback(frame string) {
 	}
 	n := atomic.AddInt64(&v.frames, 1)
 	if v.emitFrames && v.s != nil {
-		ev := verifkit.M{"ev": "out", "kind": "frame", "chk": []string{"noctl", "neutral", "lines"}, "w": v.s.width, "h": v.s.height,
-			"toks": verifkit.Toks(frame, nil), "expect": verifkit.M{}, "sid": v.sid, "frame": n}
+		/* the height the terminal really has: what the driver set last; a frame racing with a resize may
+		   still have the previous one (h2) */
+		h, h2 := int(atomic.LoadInt32(&v.termH)), int(atomic.LoadInt32(&v.prevH))
+		rows := strings.Split(frame, "\n")
+		if len(rows) != h && len(rows) == h2 {
+			h = h2
+		}
+		/* rows of the highlighted item: they start with the cursor bar */
+		top, k := -1, 0
+		for i, row := range rows {
+			if strings.HasPrefix(verifSGRre.ReplaceAllString(row, ""), "┃") {
+				if top < 0 {
+					top = i
+				}
+				k++
+			}
+		}
+		ev := verifkit.M{"ev": "out", "kind": "frame", "chk": []string{"noctl", "neutral", "lines", "centred"}, "w": int(atomic.LoadInt32(&v.termW)), "h": h,
+			"toks": verifkit.Toks(frame, nil), "expect": verifkit.M{}, "sid": v.sid, "frame": n, "cursor_top": top, "cursor_rows": k}
 		v.mu.Lock()
 		v.pending = append(v.pending, ev)
 		v.mu.Unlock()
@@ -328,8 +350,34 @@ func verifNewSession(w *verifWorld, out *verifkit.Trace, sid int, frames bool) *
 	v.dump = fmt.Sprintf("%s/hook-%d-%d.ndjson", os.TempDir(), os.Getpid(), sid)
 	os.Setenv("VERIF_DUMP", v.dump)
 	os.Remove(v.dump)
+	v.termW, v.termH, v.prevH = 80, 24, 24
 	v.s = NewState(80, 24, v.callback)
 	return v
+}
+
+func (v *verifSession) resize(w, h int) {
+	/* while the call is in progress a frame may have the old or the new size */
+	atomic.StoreInt32(&v.prevH, atomic.LoadInt32(&v.termH))
+	atomic.StoreInt32(&v.termW, int32(w))
+	atomic.StoreInt32(&v.termH, int32(h))
+	v.s.SetWidthHeight(w, h)
+	/* from here on every frame must have the new size */
+	atomic.StoreInt32(&v.prevH, int32(h))
+}
+
+/* open a page while its document is withheld by the server, resize meanwhile, then let it load */
+func (v *verifSession) openGated(target string, w, h int) error {
+	host := v.w.h
+	gate := make(chan struct{})
+	held := host.Gated(target, gate)
+	err := v.s.Subcommand("open", host.URL(target))
+	if err == nil && held {
+		time.Sleep(2 * time.Millisecond)
+		v.resize(w, h)
+	}
+	close(gate)
+	host.Ungate(target)
+	return err
 }
 
 func (v *verifSession) press(tok string, bytes []byte) (panicked bool, what string, wedged bool) {
@@ -378,7 +426,14 @@ func TestVerifKeys(t *testing.T) {
 			lens[macro] = len(w.expand(macro))
 		}
 		out.Emit(verifkit.M{"ev": "reset", "sid": sid, "start": start, "keys": toks[1:], "lens": lens})
-		if err := v.s.Subcommand("open", w.h.URL(target)); err != nil || !v.settle(8*time.Second) {
+		var err error
+		if in.Frames && sid%2 == 0 {
+			jtp.VerifSetCache(256) /* the page must really be fetched for the gate to hold it */
+			err = v.openGated(target, 50+rng.Intn(60), 5+rng.Intn(40))
+		} else {
+			err = v.s.Subcommand("open", w.h.URL(target))
+		}
+		if err != nil || !v.settle(8*time.Second) {
 			out.Emit(verifkit.M{"ev": "key", "k": "start", "obs": v.observe(), "hooks": []verifkit.M{}, "panic": false, "wedged": true, "frames": v.frames, "unheld": v.unheld, "overlap": v.overlap})
 			continue
 		}
@@ -386,7 +441,7 @@ func TestVerifKeys(t *testing.T) {
 		for i, tok := range toks[1:] {
 			if in.Frames && i%5 == 4 {
 				/* a terminal resize between keys: no effect on the abstract state */
-				v.s.SetWidthHeight(40+rng.Intn(80), 2+rng.Intn(40))
+				v.resize(40+rng.Intn(80), 2+rng.Intn(40))
 			}
 			panicked, what, wedged := v.press(tok, w.expand(tok))
 			ev := verifkit.M{"ev": "key", "k": tok, "hooks": v.hookCalls(), "panic": panicked, "wedged": wedged,
@@ -435,7 +490,7 @@ func TestVerifKeys(t *testing.T) {
 			panicked, what, wedged = v.press(string(b), []byte{b})
 			done++
 			if done%7 == 0 {
-				v.s.SetWidthHeight(20+rng.Intn(100), 2+rng.Intn(50))
+				v.resize(20+rng.Intn(100), 2+rng.Intn(50))
 			}
 		}
 		v.hookCalls()
